@@ -108,6 +108,7 @@ pub fn check_migrate(pre: &World, post: &World, msg: &Value, out: &Outcome, st: 
     let n_v2 = pre_bids.iter().filter(|(_, raw)| serde_json::from_slice::<Value>(raw).ok().and_then(|v| convert_v2(&v)).is_some()).count();
     let book_class = format!("asks:{}|v2:{}|v3:{}", pre.scan_raw("ask").len().min(3), n_v2.min(3), (pre_bids.len() - n_v2).min(3));
     st.eval("C14", format!("{}|msg:{:?}|{}|{}|{}", vclass, valid, mask, out.tag(), book_class));
+    st.sample("C14", || json!({"stored_version": stored, "version_class": vclass, "migrate_msg": msg, "message_valid": format!("{:?}", valid), "observed": out.tag()}), 4);
     if out.is_ok() {
         st.count("C14", "accepted_migrations");
     } else {
@@ -184,6 +185,9 @@ pub fn check_migrate(pre: &World, post: &World, msg: &Value, out: &Outcome, st: 
                 })).unwrap_or_default();
                 st.eval("C15", format!("converted|events:{}|kinds:{}|fee:{}|{}", n_events.min(6), kinds, !exp["fee"].is_null(), vclass));
                 st.count("C15", "old_format_bids_converted");
+                if n_events >= 2 {
+                    st.sample("C15", || json!({"old_format_bid": v, "expected_current_format": exp, "stored_after_migration": serde_json::from_slice::<Value>(after).ok()}), 3);
+                }
                 st.count_n("C15", "events_summed", n_events as u64);
                 let got: Option<Value> = serde_json::from_slice(after).ok();
                 if got.as_ref() != Some(&exp) {
